@@ -24,6 +24,7 @@ type ProgOpt struct {
 	MaxWidth   int  // literal member count
 	Zones      bool // environment times in several zones
 	NoStringOf bool // avoid string()/print renderings (whose text is only characterised)
+	NoPick     bool // do not use lz_pick (it evaluates one operand twice)
 	HostEnv    bool // environment types expressible as Go host data (optionals only as object fields / bindings)
 }
 
@@ -455,11 +456,13 @@ func (g *G) expr(want *m.Type, fuel int) *m.Expr {
 			g.stat("lz_if")
 			return g.call("lz_if", g.expr(m.Bool, fuel-1), g.expr(want, fuel-1), g.expr(want, fuel-1))
 		})
-		add(1, func() *m.Expr {
-			g.stat("lz_pick")
-			mode := m.Lit("num", strconv.Itoa(g.intn("pickmode", 5)))
-			return m.Call("lz_pick", mode, g.expr(want, fuel-1), g.expr(want, fuel-1))
-		})
+		if !g.O.NoPick {
+			add(1, func() *m.Expr {
+				g.stat("lz_pick")
+				mode := m.Lit("num", strconv.Itoa(g.intn("pickmode", 5)))
+				return m.Call("lz_pick", mode, g.expr(want, fuel-1), g.expr(want, fuel-1))
+			})
+		}
 	}
 	if g.O.Poison {
 		add(2, func() *m.Expr { // deliberately failing sub-expression
@@ -822,7 +825,6 @@ func (g *G) AnyResultType() *m.Type {
 		return g.anyType(3)
 	}
 }
-
 
 // WrapTr wraps every operand position in tr(label, ·) with a unique label:
 // call arguments (operator operands, conditional parts, receivers), list
